@@ -8,6 +8,7 @@ import (
 	"strconv"
 	"strings"
 	"sync"
+	"time"
 
 	"github.com/btcsuite/btcd/blockchain"
 	"github.com/btcsuite/btcd/btcutil/v2"
@@ -114,7 +115,27 @@ func flushMode(c byte) blockchain.FlushMode {
 	panic("bad flush mode")
 }
 
+// Exec runs one line under a watchdog: a (mutated) tree that blocks must give a failing line,
+// not a hung harness.
 func (P) Exec(line string) string {
+	done := make(chan string, 1)
+	go func() {
+		defer func() {
+			if recover() != nil {
+				done <- "panic"
+			}
+		}()
+		done <- execLine(line)
+	}()
+	select {
+	case out := <-done:
+		return out
+	case <-time.After(120 * time.Second):
+		return "timeout"
+	}
+}
+
+func execLine(line string) string {
 	f := strings.Fields(line)
 	if len(f) < 2 || f[0] != "C03" {
 		return "bad-op"
